@@ -197,7 +197,9 @@ def conv(t):
         return {"k": "obj"}
     if k == "fn" and t[1] is None and t[2] == [] and t[3] == []:
         return {"k": "fn"}
-    if k == "class" and t[1] is None and t[2] is None and t[3] == []:
+    if k == "class" and t[2] is None and t[3] == []:
+        # an anonymous class that is assigned gets the target's name in boa's AST (NamedEvaluation); a class printed
+        # with a name would not be parsed by the model parser (S2)
         return {"k": "class"}
     if k == "bin":
         return {"k": "bin", "op": t[1], "l": conv(t[2]), "r": conv(t[3])}
@@ -289,9 +291,49 @@ def structural_class(stmt):
     return None
 
 
+def contains(x, pred):
+    if isinstance(x, dict):
+        return pred(x) or any(contains(v, pred) for v in x.values())
+    if isinstance(x, list):
+        return any(contains(v, pred) for v in x)
+    return False
+
+
+def reject_class(stmt):
+    """Classes of legal structural cases that boa's parser rejects (confirmed; known findings are per class)."""
+    if contains(stmt, lambda n: n.get("k") == "yield" and isinstance(n.get("x"), dict) and n["x"] == {"k": "id", "n": "let"}):
+        return "`yield let`: the identifier `let` as operand of yield is rejected"
+    return None
+
+
+def norm_or(x):
+    """boa nests chains of `||` to the right (`a || (b || c)`), the grammar to the left; the two are
+    indistinguishable by evaluation (and by printing): chains are compared left-nested."""
+    if isinstance(x, list):
+        return [norm_or(v) for v in x]
+    if not isinstance(x, dict):
+        return x
+    x = {k: norm_or(v) for k, v in x.items()}
+    if x.get("k") == "bin" and x.get("op") == "||":
+        items = []
+
+        def flat(n):
+            if isinstance(n, dict) and n.get("k") == "bin" and n.get("op") == "||":
+                flat(n["l"])
+                flat(n["r"])
+            else:
+                items.append(n)
+        flat(x)
+        acc = items[0]
+        for it in items[1:]:
+            acc = {"k": "bin", "op": "||", "l": acc, "r": it}
+        return acc
+    return x
+
+
 # ------------------------------------------------------------------------------------------------ structural phase
 
-def run_structural(ck, tier, hparse):
+def run_structural(ck, tier, hparse, hpeval):
     mod = {"quick": "MCSyntaxQuick", "thorough": "MCSyntaxThorough", "tiny": "MCSyntaxTiny"}[os.environ.get("C19_UNIVERSE") or tier]
     r = vlib.run_tlc(os.path.join(SPECDIR, mod + ".tla"), mod + ".cfg", workers=3, coverage=(tier == "thorough"), timeout=3000)
     vlib.tlc_must_pass(r, "Syntax/" + mod)
@@ -310,7 +352,7 @@ def run_structural(ck, tier, hparse):
     if tier == "thorough":
         check_coverage(r["raw_tail"], ["PrintAct", "Start", "ShiftOperand", "Reduce", "ShiftBinary", "ShiftCond", "ShiftAssign",
                                        "ShiftPostfix", "Close"])
-    return structural_conformance(ck, cases, hparse)
+    return structural_conformance(ck, cases, hparse, hpeval)
 
 
 def check_coverage(raw_tail, actions):
@@ -320,7 +362,28 @@ def check_coverage(raw_tail, actions):
             raise vlib.ToolError("coverage: action %s was never taken" % a)
 
 
-def structural_conformance(ck, cases, hparse):
+PRELUDE = """
+function mk(n, v) {
+  var f = function () { print('call ' + n); return f; };
+  f.valueOf = function () { print('valueOf ' + n); return v; };
+  f.toString = function () { print('toString ' + n); return n; };
+  return f;
+}
+var a = mk('a', 2), b = mk('b', 3), c = mk('c', 5), p = mk('p', 7), x = mk('x', 11);
+var let = mk('let', 13), async = mk('async', 17);
+[a, b, c, p, x, let, async].forEach(function (o) { o.a = a; o.b = b; o.c = c; });
+"""
+DRIVE = """
+var it = w();
+function show(tag) { return function (r) { print(tag, typeof r, r && r.done, r && typeof r.value); }; }
+it.next().then(show('next1'), show('err1'));
+it.next(1).then(show('next2'), show('err2'));
+it.next(2).then(show('next3'), show('err3'));
+"""
+
+
+def structural_conformance(ck, cases, hparse, hpeval):
+    evpairs = []
     keys = sorted(cases)
     scen = [{"id": i, "src": wrap(render_tokens(k)), "tree": True} for i, k in enumerate(keys)]
     res = vlib.run_lines(hparse, scen)
@@ -349,14 +412,18 @@ def structural_conformance(ck, cases, hparse):
                     vlib.log("MODEL-DRIFT: the parser accepts a text the standard rejects: " + render_tokens(k))
                 roundtrip_ok(ck, out, "structural", text)
             continue
-        want = strip_na(c["res"])
+        want = norm_or(strip_na(c["res"]))
         if "(" in k:
             nontrivial += 1
         if not accepted:
-            ck.failure("structural reject-legal " + render_tokens(k), {"text": text, "model": want, "boa": out["r1"]})
+            rc = reject_class(want)
+            ck.failure("structural reject-legal " + (rc or render_tokens(k)), {"text": text, "model": want, "boa": out["r1"]})
             continue
         try:
             got = conv_stmt(unwrap_tree(out["tree"]))
+            if got != norm_or(got):
+                ck.add("or_chains_right_nested")
+            got = norm_or(got)
         except Unmodelled as e:
             got = {"unmodelled": str(e)}
         if got != want:
@@ -372,12 +439,14 @@ def structural_conformance(ck, cases, hparse):
             continue
         known = cases.get(ptoks)
         if known is not None:          # the model parser has already run on exactly these tokens
-            if known["st"] != "ok" or strip_na(known["res"]) != want:
+            if known["st"] != "ok" or norm_or(strip_na(known["res"])) != want:
                 ck.failure("structural print " + render_tokens(k), {"text": text, "print": out["p1"], "model_parse_of_print": known, "want": want})
         else:
             reparse.setdefault(ptoks, []).append((k, want))
         ck.add("evaluations")
+        evpairs.append((text, out["p1"]))
     ck.cov["structural_cases"] = stats
+    ck.cov["structural_traces_compared"] = compare_traces(ck, hpeval, evpairs, "structural", prelude=PRELUDE, drive=DRIVE)
     return cases, reparse, nontrivial
 
 
@@ -405,10 +474,851 @@ def model_reparse(ck, reparse):
     for i, k in enumerate(keys):
         o = got[i]
         for src_toks, want in reparse[k]:
-            if o["st"] != "ok" or strip_na(o["res"]) != want:
+            if o["st"] != "ok" or norm_or(strip_na(o["res"])) != want:
                 ck.failure("structural print " + render_tokens(src_toks),
                            {"text": wrap(render_tokens(src_toks)), "print_tokens": list(k), "model_parse_of_print": o, "want": want})
     return len(keys)
+
+
+# ------------------------------------------------------------------------------------------------ lexical phase
+
+CH = {"DQ": '"', "SQ": "'", "BS": "\\", "BT": "`", "DOL": "$", "LB": "{", "RB": "}", "SL": "/", "LK": "[", "RK": "]",
+      "DOT": ".", "SP": " ", "LF": "\n", "CR": "\r", "LS": "\u2028", "PS": "\u2029", "CTL": "\x01"}
+HS_UNIT = 0xD800
+INV = {v: k for k, v in CH.items()}
+HEXGROUPS = {"000A", "000D", "2028", "2029", "0001", "D800", "0061", "0022", "0027", "005C", "0060", "0024"}
+LEX_LETTERS = set("abefinruxg")
+LEX_DIGITS = set("015")
+LEX_PUNCT = set("=;():,-+")
+
+
+def chars_to_units(chars):
+    """Abstract characters of SyntaxLex.tla -> UTF-16 code units."""
+    u = []
+    for c in chars:
+        if c == "HS":
+            u.append(HS_UNIT)
+        elif c in CH:
+            u.append(ord(CH[c]))
+        elif len(c) == 5 and c[0] == "U":
+            u.extend(ord(x) for x in c[1:])
+        else:
+            u.extend(ord(x) for x in c)
+    return u
+
+
+def units_to_text(u):
+    return "".join(chr(x) for x in u)
+
+
+def text_to_chars(text):
+    """Printed text -> abstract characters; None if a character is outside the model's alphabet."""
+    out = []
+    i = 0
+    while i < len(text):
+        c = text[i]
+        if c == "u" and out and out[-1] == "BS" and (len(out) < 2 or out[-2] != "BS" or _bs_run(out) % 2 == 1) and text[i + 1:i + 5].upper() in HEXGROUPS:
+            out.append("u")
+            out.append("U" + text[i + 1:i + 5].upper())
+            i += 5
+            continue
+        if c in INV:
+            out.append(INV[c])
+        elif c in LEX_LETTERS or c in LEX_DIGITS or c in LEX_PUNCT:
+            out.append(c)
+        elif ord(c) == HS_UNIT:
+            out.append("HS")
+        else:
+            return None
+        i += 1
+    return out
+
+
+def _bs_run(out):
+    n = 0
+    for c in reversed(out):
+        if c != "BS":
+            break
+        n += 1
+    return n
+
+
+def val_text(v):
+    """Value of a model token (a sequence of abstract characters, or a punctuator string) as a list of code units."""
+    if isinstance(v, str):
+        return chars_to_units([v])
+    return chars_to_units(v)
+
+
+def tree_values(node, acc):
+    """Literal values of an hparse tree in source order: (class, value)."""
+    if isinstance(node, dict):
+        for st in node.get("body", []):
+            tree_values(st, acc)
+        return acc
+    if not isinstance(node, list) or not node:
+        return acc
+    k = node[0]
+    if k in ("id", "dot", "key") and len(node) == 2 and not isinstance(node[1], list):
+        acc.append(("name", units_of(node[1])))
+    elif k == "str":
+        acc.append(("str", units_of(node[1])))
+    elif k == "chunk":
+        acc.append(("tpl", units_of(node[1])))
+    elif k == "tpl" and node[1] == []:
+        acc.append(("tpl", []))
+    elif k == "num":
+        acc.append(("num", float(node[1])))
+    elif k == "big":
+        acc.append(("big", int(node[1])))
+    elif k == "regex":
+        acc.append(("regex", units_of(node[1]) + [ord("/")] + units_of(node[2])))
+    if isinstance(k, str):
+        for ch in node[1:]:
+            if isinstance(ch, list):
+                tree_values(ch, acc)
+    else:
+        for ch in node:
+            tree_values(ch, acc)
+    return acc
+
+
+def units_of(x):
+    if isinstance(x, dict):
+        return list(x["u16"])
+    out = []
+    for ch in x:
+        o = ord(ch)
+        if o > 0xFFFF:
+            o -= 0x10000
+            out += [0xD800 + (o >> 10), 0xDC00 + (o & 0x3FF)]
+        else:
+            out.append(o)
+    return out
+
+
+def model_values(toks):
+    """(class, value) list of a model token list, punctuators dropped, in the vocabulary of tree_values."""
+    out = []
+    for t in toks:
+        c = t["c"]
+        if c == "punct":
+            continue
+        if c == "id":
+            out.append(("name", val_text(t["v"])))
+        elif c in ("str", "tpl", "regex"):
+            out.append((c, val_text(t["v"])))
+        elif c == "num":
+            out.append(("num", float(units_to_text(val_text(t["v"])))))
+        elif c == "big":
+            out.append(("big", int(units_to_text(val_text(t["v"])))))
+        else:
+            out.append((c, val_text(t["v"])))
+    return out
+
+
+def same_values(model, impl, keys_as_names):
+    """Model token values vs. values found in the implementation's AST.  A property key is a name in the AST
+    whatever its spelling (identifier, string, canonical number)."""
+    if len(model) != len(impl):
+        return False
+    for (mc, mv), (ic, iv) in zip(model, impl):
+        if keys_as_names and ic == "name" and mc in ("str", "num", "name"):
+            mvs = mv if mc != "num" else [ord(x) for x in num_to_key(mv)]
+            if mvs != iv:
+                return False
+        elif keys_as_names and ic == "num" and mc in ("num", "str"):
+            # boa keeps numeric keys as computed numeric literals
+            try:
+                mf = mv if mc == "num" else float(units_to_text(mv))
+            except ValueError:
+                return False
+            if mf != iv or (mc == "str" and num_to_key(iv) != units_to_text(mv)):
+                return False
+        elif (mc, mv) != (ic, iv):
+            return False
+    return True
+
+
+def num_to_key(x):
+    return str(int(x)) if x == int(x) else repr(x)
+
+
+CLS_STR = "string literal whose content needs an escape (quote, backslash, LF or CR) is printed raw"
+CLS_TPL = "template literal whose cooked content needs an escape (backtick, backslash, CR or ${) is printed raw"
+CLS_KEY = "property key that needs quotes (not an identifier name / canonical number) is printed bare"
+CLS_KEYNUM = "quoted property key that is a canonical numeric string is printed bare and read back as a numeric literal key"
+CLS_NUMDOT = "numeric literal followed by a member access is printed so that its dot is read as a decimal point"
+CLS_FORAWAIT = "`for await (... of ...)` is printed as a plain `for (... of ...)`"
+CLS_INF = "numeric literal that overflows to Infinity is printed as `inf`"
+CLS_DIRECTIVE = "string expression statement spelled with an escape is printed as a directive"
+NEEDS_ESCAPE = {"str": {"DQ", "BS", "LF", "CR"}, "tpl": {"BT", "BS", "CR", "DOL"}}
+
+
+def lexical_class(case):
+    """Class label of a lexical case with a confirmed printer defect, else None (known findings are per class)."""
+    tag = case["tag"]
+    toks = case["out"]
+    if tag.startswith("str-") or tag.startswith("key-computed"):
+        for t in toks:
+            if t["c"] == "str" and set(t["v"]) & NEEDS_ESCAPE["str"]:
+                return CLS_STR
+    if tag.startswith("tpl-"):
+        for t in toks:
+            if t["c"] == "tpl" and (set(t["v"]) & {"BT", "BS", "CR"} or _has_dollar_brace(t["v"])):
+                return CLS_TPL
+    if tag.startswith("key-quoted"):
+        cls = tag.split(" ", 1)[1]
+        if cls.startswith("needs-quotes") or cls.startswith("non-canonical-numeric"):
+            return CLS_KEY
+        if cls.startswith("canonical-numeric"):
+            return CLS_KEYNUM
+    if tag.startswith("num-member"):
+        return CLS_NUMDOT
+    return None
+
+
+def _has_dollar_brace(v):
+    return any(v[i] == "DOL" and v[i + 1] == "LB" for i in range(len(v) - 1))
+
+
+def run_lexical(ck, tier, hparse):
+    r = vlib.run_tlc(os.path.join(SPECDIR, "MCSyntaxLex.tla"), "MCSyntaxLex.cfg", workers=3, coverage=(tier == "thorough"), timeout=1500)
+    vlib.tlc_must_pass(r, "SyntaxLex")
+    ck.add("states", r["distinct"])
+    ck.add("transitions", r["states"])
+    if tier == "thorough":
+        check_coverage(r["raw_tail"], ["Top", "InString", "Escape", "InTemplate", "InNumber", "InIdent", "InRegex", "RegexFlags"])
+    cases = {}
+    for tag, o in r["tagged"]:
+        if tag == "LEX":
+            cases[(o["tag"], tuple(o["chars"]))] = o
+    if len(cases) < 300:
+        raise vlib.ToolError("lexical: TLC emitted %d cases" % len(cases))
+    # texts that denote their intended tokens are sent to the implementation
+    keys = sorted(k for k, c in cases.items() if c["st"] == "ok" and c["ok"])
+    scen = []
+    for i, k in enumerate(keys):
+        u = chars_to_units(cases[k]["chars"])
+        scen.append({"id": i, "src": units_to_text(u), "tree": True})
+    res = vlib.run_lines(hparse, scen)
+    relex = []
+    nontrivial = 0
+    for i, k in enumerate(keys):
+        c = cases[k]
+        out = res[i]
+        text = scen[i]["src"]
+        cls = lexical_class(c)
+        if any(t["c"] in ("str", "tpl") and not all(x in ("a", "-", "SQ", "LB") or (x == "DOL") for x in t["v"]) for t in c["out"]) or \
+                c["tag"].split(" ")[0] in ("key-quoted", "key-computed", "num-member-dotdot", "num-member-paren", "regex", "ident-escape", "keyword-member-escape"):
+            nontrivial += 1
+        if bad_outcome(ck, out, "lexical", text):
+            continue
+        if "ok" not in out["r1"]:
+            ck.failure("lexical reject %s %s" % (c["tag"], json.dumps(text)), {"text": text, "case": c["tag"], "boa": out["r1"]})
+            continue
+        impl = tree_values(out["tree"], [])
+        mod = model_values(c["out"])
+        if not same_values(mod, impl, c["tag"].startswith("key-")):
+            ck.failure("lexical value %s %s" % (c["tag"], json.dumps(text)), {"text": text, "case": c["tag"], "model": mod, "boa": impl})
+            continue
+        ck.add("evaluations")
+        sig = ("lexical roundtrip " + cls) if cls else None
+        if not roundtrip_ok(ck, out, "lexical", text, sig=sig):
+            continue
+        relex.append((k, out["p1"], sig))
+    ck.cov["lexical_cases"] = {"model": len(cases), "sent": len(keys)}
+    n2 = model_relex(ck, cases, relex)
+    ck.cov["lexical_relexed_by_model"] = n2
+    return nontrivial
+
+
+def model_relex(ck, cases, relex):
+    """boa's printed text, mapped to the abstract alphabet, must re-lex UNDER THE MODEL LEXER to the same values."""
+    os.makedirs(WORKDIR, exist_ok=True)
+    path = os.path.join(WORKDIR, "relex-%d.ndjson" % os.getpid())
+    sent = []
+    with open(path, "w") as f:
+        for i, (k, p1, sig) in enumerate(relex):
+            chars = text_to_chars(p1)
+            if chars is None:
+                ck.failure(sig or ("lexical print-alphabet %s" % json.dumps(p1)), {"print": p1, "what": "printed text uses characters outside the alphabet of the case"})
+                continue
+            f.write(json.dumps({"id": i, "chars": chars}) + "\n")
+            sent.append(i)
+    if not sent:
+        return 0
+    r = vlib.run_tlc(os.path.join(SPECDIR, "SyntaxLexRun.tla"), "SyntaxLexRun.cfg", workers=3, env_extra={"C19_CHARS": path}, timeout=1500)
+    vlib.tlc_must_pass(r, "SyntaxLexRun")
+    os.unlink(path)
+    got = {o["id"]: o for tag, o in r["tagged"] if tag == "LEXRUN"}
+    if len(got) != len(sent):
+        raise vlib.ToolError("SyntaxLexRun: %d results for %d inputs" % (len(got), len(sent)))
+    ck.add("states", r["distinct"])
+    ck.add("transitions", r["states"])
+    for i in sent:
+        k, p1, sig = relex[i]
+        c = cases[k]
+        o = got[i]
+        want = model_values(c["out"])
+        have = model_values(o["out"]) if o["st"] == "ok" else None
+        if have is None or not same_relex(want, have, c["tag"].startswith("key-")):
+            ck.failure(sig or ("lexical print %s %s" % (c["tag"], json.dumps(units_to_text(chars_to_units(c["chars"]))))),
+                       {"case": c["tag"], "print": p1, "model_lex_of_print": o, "want": c["out"]})
+    return len(sent)
+
+
+def same_relex(want, have, keys):
+    if len(want) != len(have):
+        return False
+    for (wc, wv), (hc, hv) in zip(want, have):
+        if keys and {wc, hc} <= {"name", "str", "num"}:
+            a = [ord(x) for x in num_to_key(wv)] if wc == "num" else wv
+            b = [ord(x) for x in num_to_key(hv)] if hc == "num" else hv
+            if a != b:
+                return False
+        elif (wc, wv) != (hc, hv):
+            return False
+    return True
+
+
+# ------------------------------------------------------------------------------------------------ known-defect features of a text
+
+SIMPLE_ESC = {"n": "\n", "t": "\t", "b": "\b", "v": "\v", "f": "\f", "r": "\r"}
+ESC_RE = re.compile(r"\\(u\{[0-9a-fA-F]+\}|u[0-9a-fA-F]{4}|x[0-9a-fA-F]{2}|[0-3][0-7]{0,2}|[4-7][0-7]?|\r\n|[\s\S])")
+
+
+def cook(raw, template=False):
+    """Cooked value (a Python str of UTF-16 units) of the inside of a string literal / template chunk."""
+    def rep(m):
+        e = m.group(1)
+        if e[0] == "u":
+            cp = int(e[2:-1], 16) if e[1] == "{" else int(e[1:], 16)
+            if cp > 0x10FFFF:
+                return ""
+            if cp > 0xFFFF:
+                cp -= 0x10000
+                return chr(0xD800 + (cp >> 10)) + chr(0xDC00 + (cp & 0x3FF))
+            return chr(cp)
+        if e[0] == "x" and len(e) == 3:
+            return chr(int(e[1:], 16))
+        if e[0] in "01234567":
+            return chr(int(e, 8))
+        if e in ("\r\n", "\n", "\r", "\u2028", "\u2029"):
+            return ""
+        return SIMPLE_ESC.get(e, e)
+    out = ESC_RE.sub(rep, raw)
+    if template:
+        out = out.replace("\r\n", "\n").replace("\r", "\n")
+    return out
+
+
+def to_units_str(text):
+    """Python str -> str whose characters are UTF-16 code units."""
+    return "".join(chr(u) for u in units_of(text))
+
+
+IDENT_NAME = re.compile(r"^[A-Za-z_$][A-Za-z0-9_$]*$")
+
+
+def is_canonical_numeric(s):
+    try:
+        x = float(s)
+    except ValueError:
+        return False
+    return num_to_key(x) == s and x == x and abs(x) < 1e21
+
+
+def tpl_chunks(tok):
+    """Pieces of a template token outside `${ }`: list of (start, end) offsets into the token text."""
+    out = []
+    i, n = 1, len(tok) - 1
+    start = 1
+    depth = 0
+    while i < n:
+        if depth == 0 and tok[i] == "\\":
+            i += 2
+            continue
+        if depth == 0 and tok.startswith("${", i):
+            out.append((start, i))
+            depth = 1
+            i += 2
+            continue
+        if depth > 0:
+            if tok[i] == "{":
+                depth += 1
+            elif tok[i] == "}":
+                depth -= 1
+                if depth == 0:
+                    start = i + 1
+        i += 1
+    out.append((start, n))
+    return out
+
+
+def features(toks):
+    """Known printer-defect classes present in a token list of lex_js: {class: [token indices]}."""
+    f = {}
+    real = [(i, c, t) for i, (c, t) in enumerate(toks) if c != "nl"]
+    for j, (i, c, t) in enumerate(real):
+        nxt = real[j + 1][2] if j + 1 < len(real) else ""
+        prv = real[j - 1][2] if j > 0 else ""
+        if c == "str":
+            v = cook(t[1:-1])
+            if any(x in v for x in '"\\\n\r'):
+                f.setdefault(CLS_STR, []).append(i)
+            if nxt in (":", "(") and not IDENT_NAME.match(v) and not is_canonical_numeric(v):
+                f.setdefault(CLS_KEY, []).append(i)
+            if nxt in (":", "(") and is_canonical_numeric(v):
+                f.setdefault(CLS_KEYNUM, []).append(i)
+            if "\\" in t and v == "use strict":
+                f.setdefault(CLS_DIRECTIVE, []).append(i)
+        elif c == "tpl":
+            for a, b in tpl_chunks(t):
+                raw = t[a:b]
+                v = cook(raw, True)
+                if any(x in v for x in "`\\") or "${" in v:
+                    f.setdefault(CLS_TPL, []).append(i)
+                    break
+        elif c == "num":
+            tt = t.replace("_", "")
+            try:
+                x = float(int(tt, 0)) if re.match(r"0[xXoObB]", tt) else (None if tt.endswith("n") else float(tt))
+            except (ValueError, OverflowError):
+                x = float("inf")
+            if x == float("inf"):
+                f.setdefault(CLS_INF, []).append(i)
+            if nxt == "." and x is not None and x == int(x) and abs(x) < 1e21 and x != float("inf"):
+                f.setdefault(CLS_NUMDOT, []).append(i)
+            if t.endswith(".") and real[j + 1][1] == "id" if j + 1 < len(real) else False:
+                f.setdefault(CLS_NUMDOT, []).append(i)
+        elif c == "id" and t == "for" and nxt == "await":
+            f.setdefault(CLS_FORAWAIT, []).append(real[j + 1][0])
+    return f
+
+
+def neutralise(src_toks, classes):
+    """The text with every occurrence of the given defect classes replaced by a harmless token."""
+    toks = list(src_toks)
+    f = features(toks)
+    n = 0
+    for cls in classes:
+        for i in f.get(cls, []):
+            c, t = toks[i]
+            n += 1
+            if c == "str":
+                toks[i] = (c, '"s%d"' % n)
+            elif c == "tpl":
+                out = t
+                for a, b in reversed(tpl_chunks(t)):
+                    out = out[:a] + re.sub(r"\\[\s\S]", "_", out[a:b]) + out[b:]
+                toks[i] = (c, out)
+            elif c == "num":
+                toks[i] = (c, "(1)" if cls == CLS_NUMDOT else "1")
+            elif c == "id":
+                toks[i] = ("nl", " ")
+    return untokenise(toks)
+
+
+def untokenise(toks):
+    out = []
+    for c, t in toks:
+        if c == "nl":
+            out.append("\n")
+        else:
+            out.append(t)
+            out.append(" ")
+    return "".join(out)
+
+
+class Pending:
+    """Round-trip failures on free texts are attributed to known defect classes by masking: the text with all
+    known classes neutralised must pass; a class is a culprit iff the text with all OTHER classes neutralised fails."""
+
+    def __init__(self, ck, hparse):
+        self.ck, self.hparse = ck, hparse
+        self.items = []
+
+    def add(self, where, text, goal, out):
+        self.items.append((where, text, goal, out))
+
+    def resolve(self):
+        ck = self.ck
+        scen = []
+        plan = []
+        for n, (where, text, goal, out) in enumerate(self.items):
+            try:
+                toks = lex_js(text)
+            except LexError:
+                toks = None
+            f = features(toks) if toks else {}
+            if not f:
+                plan.append((n, None, []))
+                continue
+            classes = sorted(f)
+            ids = {}
+            ids["all"] = len(scen)
+            scen.append({"id": len(scen), "src": neutralise(toks, classes), "goal": goal})
+            for c in classes:
+                ids[c] = len(scen)
+                scen.append({"id": len(scen), "src": neutralise(toks, [x for x in classes if x != c]), "goal": goal})
+            plan.append((n, ids, classes))
+        res = vlib.run_lines(self.hparse, scen) if scen else {}
+        for n, ids, classes in plan:
+            where, text, goal, out = self.items[n]
+            if ids is None:
+                roundtrip_ok(ck, out, where, text)
+                continue
+            allout = res[ids["all"]]
+            if "ok" not in allout.get("r1", {}) or not quiet_roundtrip(allout):
+                # still failing with every known class masked (or the masked text is not a program): a new failure
+                roundtrip_ok(ck, out, where, text)
+                continue
+            culprits = [c for c in classes if "ok" in res[ids[c]].get("r1", {}) and not quiet_roundtrip(res[ids[c]])]
+            if not culprits:
+                roundtrip_ok(ck, out, where, text)
+                continue
+            for c in culprits:
+                roundtrip_ok(ck, out, where, text, sig="lexical roundtrip " + c)
+
+
+def quiet_roundtrip(out):
+    class Q:
+        def failure(self, *a):
+            return True
+    return roundtrip_ok(Q(), out, "", "")
+
+
+# ------------------------------------------------------------------------------------------------ corpus: round trip and traces
+
+NONDET = re.compile(r"\b(Date|random|now|performance|toString|toSource|stack|Temporal|toLocale\w*|Intl|gc|WeakRef|FinalizationRegistry|lineNumber|columnNumber)\b")
+
+
+def load_corpus(tier):
+    sys.path.insert(0, os.path.join(vlib.ROOT, "tools"))
+    items = []
+    for name in ("extracted.jsonl", "hand.jsonl"):
+        path = os.path.join(vlib.ROOT, "corpus", "c03", name)
+        if os.path.exists(path):
+            for n, line in enumerate(open(path)):
+                d = json.loads(line)
+                items.append(("c03/%s#%d" % (name, n), d["src"], "module" if d.get("kind") == "module" else "script"))
+    c01 = os.path.join(vlib.ROOT, "corpus", "c01")
+    if os.path.isdir(c01):
+        try:
+            import jscore
+            for fn in sorted(x for x in os.listdir(c01) if x.endswith(".ndjson")):
+                for n, line in enumerate(open(os.path.join(c01, fn))):
+                    d = json.loads(line)
+                    try:
+                        items.append(("c01/%s#%d" % (fn, n), jscore.render(d["ast"]), "script"))
+                    except Exception:
+                        pass
+        except ImportError:
+            pass
+    return items
+
+
+HJS_CFG = {"loop": 20000, "rec": 300}
+
+
+def trace_of(r):
+    if r is None:
+        return None
+    if "panic" in r or "abort" in r:
+        return {"crash": r.get("panic") or r.get("abort")}
+    return [[s.get("out"), s.get("c")] for s in r.get("steps", [])]
+
+
+def run_corpus(ck, tier, hparse, hjs):
+    items = load_corpus(tier)
+    if len(items) < 1000:
+        raise vlib.ToolError("corpus: only %d texts found" % len(items))
+    rnd = random.Random(vlib.seed())
+    if tier == "quick":
+        # the seed selects the slice; the texts with known-defect features are always included
+        keep = [it for it in items if quick_feature(it[1])]
+        rest = [it for it in items if not quick_feature(it[1])]
+        rnd.shuffle(rest)
+        items = keep + rest[:1500]
+    scen = [{"id": i, "src": src, "goal": goal} for i, (name, src, goal) in enumerate(items)]
+    res = vlib.run_lines(hparse, scen)
+    pend = Pending(ck, hparse)
+    ev = []
+    accepted = 0
+    for i, (name, src, goal) in enumerate(items):
+        out = res[i]
+        if bad_outcome(ck, out, "corpus", src):
+            continue
+        totality_ok(ck, out, "corpus", src_units=units_of(src), text=src)
+        if "ok" not in out["r1"]:
+            continue
+        accepted += 1
+        if out.get("noprint"):
+            continue
+        if quiet_roundtrip(out):
+            ck.add("evaluations")
+            if goal == "script" and not NONDET.search(src):
+                ev.append((src, out["p1"]))
+        else:
+            pend.add("corpus", src, goal, out)
+    pend.resolve()
+    ck.cov["corpus"] = {"texts": len(items), "accepted": accepted, "roundtrip_failures_attributed": len(pend.items)}
+    n = compare_traces(ck, hjs, ev, "corpus")
+    ck.cov["corpus"]["traces_compared"] = n
+    return len(items)
+
+
+def quick_feature(src):
+    try:
+        return bool(features(lex_js(src)))
+    except LexError:
+        return False
+
+
+def compare_traces(ck, hjs, pairs, where, prelude=None, drive=None):
+    """S4: the printed program evaluates to the same trace as the original (fresh context each)."""
+    scen = []
+    for i, (src, printed) in enumerate(pairs):
+        for j, text in enumerate((src, printed)):
+            steps = []
+            if prelude:
+                steps.append({"kind": "eval", "src": prelude})
+            steps.append({"kind": "eval", "src": text})
+            if drive:
+                steps.append({"kind": "eval", "src": drive})
+            steps.append({"kind": "jobs"})
+            scen.append({"id": 2 * i + j, "cfg": HJS_CFG, "steps": steps})
+    res = vlib.run_lines(hjs, scen) if scen else {}
+    n = 0
+    for i, (src, printed) in enumerate(pairs):
+        a, b = trace_of(res.get(2 * i)), trace_of(res.get(2 * i + 1))
+        n += 1
+        if a != b:
+            ck.failure("%s trace %s" % (where, shrink_label(src)), {"text": src, "print": printed, "trace_source": a, "trace_print": b})
+    return n
+
+
+# ------------------------------------------------------------------------------------------------ totality
+
+def line_bounds(units):
+    """Number of lines and the longest line (in code units) of a text: generous bounds for error positions."""
+    lines = 1
+    longest = cur = 0
+    for u in units:
+        if u in (0x0A, 0x0D, 0x2028, 0x2029):
+            lines += 1
+            longest = max(longest, cur)
+            cur = 0
+        else:
+            cur += 1
+    return lines, max(longest, cur)
+
+
+def loose_variants(units):
+    raw = "".join(chr(u) for u in units)
+    try:
+        cooked = cook(raw)
+    except Exception:
+        cooked = raw
+    vs = [raw, cooked, raw.replace("\r\n", "\n").replace("\r", "\n"), cooked.replace("\r\n", "\n").replace("\r", "\n")]
+    return vs
+
+
+def flags_permutation(su, raw):
+    """boa interns the flags of a regular expression literal in sorted order (`/x/sm` -> "ms")."""
+    if not (1 < len(su) <= 8 and set(su) <= set("dgimsuvy")):
+        return False
+    key = sorted(su)
+    n = len(su)
+    return any(sorted(raw[i:i + n]) == key for i in range(len(raw) - n + 1))
+
+
+def totality_ok(ck, out, where, src_units, text, label=None):
+    """Error position inside the text; strings interned by the parser occur in the text."""
+    label = label or shrink_label(text if isinstance(text, str) else repr(text))
+    r1 = out.get("r1", {})
+    ok = True
+    if "err" in r1 and "line" in r1["err"]:
+        lines, longest = line_bounds(src_units)
+        e = r1["err"]
+        for lk, ckey in (("line", "col"), ("eline", "ecol")):
+            if lk in e and not (1 <= e[lk] <= lines + 1 and 1 <= e[ckey] <= longest + 2):
+                ck.failure("%s error-position %s" % (where, label), {"text": text, "error": e, "lines": lines, "longest_line": longest})
+                ok = False
+                break
+    vs = None
+    for s in out.get("new1", []):
+        su = "".join(chr(u) for u in units_of(s))
+        if vs is None:
+            vs = loose_variants(src_units)
+        if su and not any(su in v for v in vs) and not flags_permutation(su, vs[0]):
+            ck.failure("%s interned-foreign-string %s" % (where, label), {"text": text, "interned": s})
+            ok = False
+            break
+    return ok
+
+
+# ------------------------------------------------------------------------------------------------ mutants
+
+BRACKETS = ["(", ")", "[", "]", "{", "}"]
+INSERTS = ["(", ")", "[", "]", "{", "}", ",", ";", "=>", "?.", "...", "`", "${", "/", "*", "**", "++", "=", "?", ":", ".", "#x",
+           "async", "await", "yield", "function", "class", "new", "let", "of", "in", "for", "static", "get", "set", "import", "export",
+           "0x", "1e", "1n", "'", '"', "\\", "\\u", "\\u{110000}", "/*", "//", "<!--", "\n", " ", "@"]
+NESTS = [("(", ")"), ("[", "]"), ("{", "}"), ("(function(){", "})"), ("`${", "}`"), ("a=>", ""), ("-", ""), ("new ", ""), ("!", ""),
+         ("f(", ")"), ("[...", "]"), ("({a:", "})"), ("async()=>{await ", "}"), ("class A{static{", "}}"), ("a?.[", "]"), ("a?b:", ""),
+         ("x=", ""), ("{a:", "}"), ("label:", ""), ("if(a)", ""), ("do ", " while(0)"), ("try{", "}catch{}"), ("a,", "")]
+BAD_UTF8 = [b"\xff", b"\xc0\x80", b"\xed\xa0\x80", b"\xe2\x82", b"\xf4\x90\x80\x80", b"\x80", b"\xf8\x88\x80\x80\x80", b"\xc3", b"\xef\xbf\xbe"]
+
+
+def lenient_utf8(b):
+    """The decoder of boa_parser::source::UTF8Input (it does not validate): code points of a byte string."""
+    out = []
+    i, n = 0, len(b)
+
+    def nxt():
+        nonlocal i
+        if i < n:
+            v = b[i]
+            i += 1
+            return v
+        return 0
+    while i < n:
+        x = nxt()
+        if x < 128:
+            out.append(x)
+            continue
+        init = x & 0x1F
+        y = nxt()
+        ch = (init << 6) | (y & 0x3F)
+        if x >= 0xE0:
+            z = nxt()
+            y_z = ((y & 0x3F) << 6) | (z & 0x3F)
+            ch = ((init << 12) | y_z) & 0xFFFFFFFF
+            if x >= 0xF0:
+                w = nxt()
+                ch = (((init & 7) << 18) | ((y_z << 6) | (w & 0x3F))) & 0xFFFFFFFF
+        out.append(ch)
+    return out
+
+
+def mutants(rnd, texts, n):
+    """Seeded token-level mutants: (label, scenario fields, text for the report, source code units)."""
+    out = []
+    pool = []
+    for t in texts:
+        try:
+            toks = [x for x in lex_js(t)]
+        except LexError:
+            continue
+        if 3 <= len(toks) <= 400:
+            pool.append((t, toks))
+    if not pool:
+        return out
+    while len(out) < n:
+        t, toks = rnd.choice(pool)
+        kind = rnd.choice(["delete", "dup", "swap", "unbalance", "insert", "nest", "nest", "surrogate", "utf8", "truncate", "splice"])
+        toks2 = list(toks)
+        k = rnd.randrange(len(toks2))
+        if kind == "delete":
+            del toks2[k]
+            text = untokenise(toks2)
+        elif kind == "dup":
+            toks2.insert(k, toks2[k])
+            text = untokenise(toks2)
+        elif kind == "swap":
+            j = min(k + 1, len(toks2) - 1)
+            toks2[k], toks2[j] = toks2[j], toks2[k]
+            text = untokenise(toks2)
+        elif kind == "unbalance":
+            idx = [i for i, (c, x) in enumerate(toks2) if x in BRACKETS]
+            if idx:
+                i = rnd.choice(idx)
+                if rnd.random() < 0.5:
+                    del toks2[i]
+                else:
+                    toks2[i] = ("punct", rnd.choice(BRACKETS))
+            else:
+                toks2.insert(k, ("punct", rnd.choice(BRACKETS)))
+            text = untokenise(toks2)
+        elif kind == "insert":
+            for _ in range(rnd.choice([1, 1, 2, 3])):
+                toks2.insert(rnd.randrange(len(toks2) + 1), ("punct", rnd.choice(INSERTS)))
+            text = untokenise(toks2)
+        elif kind == "nest":
+            a, b = rnd.choice(NESTS)
+            depth = rnd.choice([2, 8, 33, 64])
+            inner = rnd.choice([t, "a", "", untokenise(toks2[:k])])
+            text = a * depth + inner + b * (depth if rnd.random() < 0.8 else depth - 1)
+        elif kind == "truncate":
+            text = t[:rnd.randrange(len(t) + 1)]
+        elif kind == "splice":
+            t2, toksb = rnd.choice(pool)
+            text = untokenise(toks2[:k] + toksb[rnd.randrange(len(toksb)):])
+        else:
+            text = t
+        if kind == "surrogate":
+            u = units_of(t)
+            for _ in range(rnd.choice([1, 2])):
+                u.insert(rnd.randrange(len(u) + 1), rnd.choice([0xD800, 0xDBFF, 0xDC00, 0xDFFF]))
+            fields = {"u16": u}
+            units = u
+            shown = "".join(chr(x) if not 0xD800 <= x <= 0xDFFF else "\\u%04X" % x for x in u)
+        elif kind == "utf8":
+            b = bytearray(t.encode("utf-8"))
+            for _ in range(rnd.choice([1, 2])):
+                pos = rnd.randrange(len(b) + 1)
+                b[pos:pos] = rnd.choice(BAD_UTF8)
+            fields = {"hex": bytes(b).hex()}
+            cps = lenient_utf8(bytes(b))
+            if any(cp > 0x10FFFF or 0xD800 <= cp <= 0xDFFF for cp in cps):
+                units = None           # what such a code point becomes inside a literal is not specified: no interning claim
+            else:
+                units = units_of("".join(chr(cp) for cp in cps))
+            shown = bytes(b).decode("utf-8", "backslashreplace")
+        else:
+            fields = {"src": text}
+            units = units_of(text)
+            shown = text
+        out.append((kind, fields, shown, units))
+    return out
+
+
+def run_mutants(ck, tier, hparse):
+    rnd = random.Random(vlib.seed() * 7919 + 19)
+    texts = [src for _, src, _ in load_corpus(tier)]
+    n = 2500 if tier == "quick" else 30000
+    ms = mutants(rnd, texts, n)
+    scen = []
+    for i, (kind, fields, shown, units) in enumerate(ms):
+        sc = {"id": i, "goal": "module" if i % 4 == 3 else "script", "timeout_ms": 20000}
+        sc.update(fields)
+        scen.append(sc)
+    res = vlib.run_lines(hparse, scen)
+    pend = Pending(ck, hparse)
+    stats = {"ok": 0, "err": 0}
+    kinds = {}
+    for i, (kind, fields, shown, units) in enumerate(ms):
+        out = res[i]
+        kinds[kind] = kinds.get(kind, 0) + 1
+        if bad_outcome(ck, out, "mutant", shown):
+            continue
+        if units is not None:
+            totality_ok(ck, out, "mutant", src_units=units, text=shown)
+        else:
+            ck.add("mutants_without_interning_claim")
+        if "ok" in out["r1"]:
+            stats["ok"] += 1
+            if "src" in fields and not out.get("noprint") and not quiet_roundtrip(out):
+                pend.add("mutant", fields["src"], scen[i]["goal"], out)
+        else:
+            stats["err"] += 1
+        ck.add("evaluations")
+    pend.resolve()
+    ck.cov["mutants"] = {"n": len(ms), "accepted": stats["ok"], "rejected": stats["err"], "kinds": kinds}
+    if stats["err"] < len(ms) // 5 or stats["ok"] < len(ms) // 50:
+        raise vlib.ToolError("mutants: implausible accept/reject split %r" % stats)
+    return len(ms)
 
 
 # ------------------------------------------------------------------------------------------------ generic outcome checks
@@ -442,10 +1352,15 @@ def roundtrip_ok(ck, out, where, text, sig=None):
     if not out.get("p2same") or "ok" not in out.get("r3", {}) or not out.get("eq23") or not out.get("p3same"):
         ck.failure(sig, {"text": text, "what": "parse-print is not a fixed point from the first printed form on", "print": out.get("p1"), "print2": out.get("p2")})
         return False
-    il = out["ilen"]
-    if not (il[1] == il[2] == il[3]):
-        ck.failure(sig, {"text": text, "what": "re-parsing the printed text interned new strings", "new2": out.get("new2"), "new3": out.get("new3")})
-        return False
+    # strings interned while re-parsing must occur in the text that was parsed (the printed one)
+    pv = None
+    for s_ in (out.get("new2") or []) + (out.get("new3") or []):
+        su = "".join(chr(u) for u in units_of(s_))
+        if pv is None:
+            pv = loose_variants(units_of(out["p1"]))
+        if su and not any(su in v for v in pv) and not flags_permutation(su, pv[0]):
+            ck.failure(sig, {"text": text, "what": "re-parsing the printed text interned a string that does not occur in it", "interned": s_, "print": out["p1"]})
+            return False
     return True
 
 
@@ -453,10 +1368,20 @@ def roundtrip_ok(ck, out, where, text, sig=None):
 
 def run(tier, replay=None):
     ck = vlib.Check("C19", tier, "model_checking", replay)
-    bindir = vlib.build_harness(["hparse", "hjs"])
+    bindir = vlib.build_harness(["hparse", "hpeval"])
     hparse = os.path.join(bindir, "hparse")
-    cases, reparse, nontrivial = run_structural(ck, tier, hparse)
-    n2 = model_reparse(ck, reparse)
-    ck.cov["structural_reparsed_by_model"] = n2
+    hjs = os.path.join(bindir, "hpeval")
+    phases = (os.environ.get("C19_PHASES") or "struct,lex,corpus,mutants").split(",")      # development only
+    nontrivial = 0
+    if "struct" in phases:
+        cases, reparse, nt = run_structural(ck, tier, hparse, hjs)
+        nontrivial += nt
+        ck.cov["structural_reparsed_by_model"] = model_reparse(ck, reparse)
+    if "lex" in phases:
+        nontrivial += run_lexical(ck, tier, hparse)
+    if "corpus" in phases:
+        run_corpus(ck, tier, hparse, hjs)
+    if "mutants" in phases:
+        run_mutants(ck, tier, hparse)
     ck.cov["distinct_nontrivial"] = nontrivial
     return ck.finish()
